@@ -122,6 +122,41 @@ def run(prop, tier, seed, known):
                 for kind, src in sources(text):
                     expect('load_events(comment=%r)' % cre, lambda: IO.load_events(src, comment=cre),
                            lambda r: None if isinstance(r, np.ndarray) and r.tolist() == ev2 else 'got %r wrote %r' % (r, ev2))
+            # the DEFAULT delimiter is "any amount of whitespace": runs of blanks / tabs between columns, labels keep their inner blanks
+            k3 = rng.randint(1, 3)
+            st3 = sorted(floats(k3))
+            en3 = [s_ + 0.5 + rng.random() for s_ in st3]
+            lb3 = [rng.choice(['N', 'verse 1', 'C:maj', 'a  b']) for _ in range(k3)]
+            for sep in ('  ', ' \t', '\t\t', '   '):
+                text = ''.join('%s%s%s%s%s\n' % (fmt(s_), sep, fmt(e_), sep, l) for s_, e_, l in zip(st3, en3, lb3))
+                for kind, src in sources(text):
+                    expect('load_labeled_intervals with the default delimiter and separator %r (%s)' % (sep, kind), lambda: IO.load_labeled_intervals(src),
+                           lambda r: None if isinstance(r, tuple) and r[0].tolist() == [[a, b] for a, b in zip(st3, en3)] and r[1] == lb3 else 'got %r, wrote %r' % (r, lb3))
+                text = ''.join('%s%s%s\n' % (fmt(s_), sep, l) for s_, l in zip(st3, lb3))
+                for kind, src in sources(text):
+                    expect('load_labeled_events with the default delimiter and separator %r (%s)' % (sep, kind), lambda: IO.load_labeled_events(src),
+                           lambda r: None if isinstance(r, tuple) and r[0].tolist() == st3 and r[1] == lb3 else 'got %r, wrote %r' % (r, lb3))
+                text = ''.join('%s%s%s\n' % (fmt(s_), sep, fmt(e_)) for s_, e_ in zip(st3, en3))
+                for kind, src in sources(text):
+                    expect('load_intervals with the default delimiter and separator %r (%s)' % (sep, kind), lambda: IO.load_intervals(src),
+                           lambda r: None if isinstance(r, np.ndarray) and r.tolist() == [[a, b] for a, b in zip(st3, en3)] else 'got %r' % (r,))
+            # content that parses but violates a convention is returned WITH a warning; conforming content loads silently
+            def warns(fn):
+                with warnings.catch_warnings(record=True) as w:
+                    warnings.simplefilter('always')
+                    try:
+                        fn()
+                    except Exception as ex:
+                        return 'raised %s' % type(ex).__name__
+                    return len([x for x in w if not issubclass(x.category, DeprecationWarning)]) > 0
+            nonlocal_n = [0]
+            for text, loader, should in (('0 0 0.5\n', IO.load_tempo, True), ('60 120 0.5\n', IO.load_tempo, False), ('-60 120 0.5\n', IO.load_tempo, True),
+                                         ('2.0\n1.0\n', IO.load_events, True), ('1.0\n2.0\n', IO.load_events, False),
+                                         ('1.0 0.5\n', IO.load_intervals, True), ('0.5 1.0\n', IO.load_intervals, False)):
+                got_w = warns(lambda: loader(_io.StringIO(text)))
+                n += 1
+                if got_w is not should:
+                    fails.append('%s(%r): warning expected=%s, observed=%s' % (loader.__name__, text, should, got_w))
             # files without any data row (empty, or comments only) load as empty annotations
             for text in ('', '# nothing here\n', '# a\n# b\n'):
                 for kind, src in sources(text):
